@@ -63,6 +63,10 @@ pub struct World {
     pub seed: u64,
     pub steps_done: usize,
     pub log_seed: u64,
+    /// The id the first version is moved to right after it was written: the state an archive is
+    /// in after that many earlier versions were made and deleted again. Lets short histories
+    /// cross b0009/b0010, b0099/b0100 and above all b9999/b10000, where zero padding ends.
+    pub first_band: u32,
 }
 
 pub const H_HUNKS: [usize; 6] = [1, 2, 3, 5, 8, 100_000];
@@ -103,6 +107,7 @@ impl World {
             seed,
             steps_done: 0,
             log_seed: seed,
+            first_band: *rng.pick(&[0u32, 0, 0, 0, 8, 98, 998, 9997, 9998, 9998, 99_998]),
         }
     }
 
@@ -186,7 +191,16 @@ impl World {
             .map(|(id, _)| *id)
             .max();
         if let Some(b) = rep.new_band {
-            self.sources.insert(b, self.snap.clone());
+            if self.sources.is_empty() && b == 0 && self.first_band > 0 && out.ok() && after.bands.len() == 1 {
+                // fast-forward the band numbering
+                let to = self.first_band;
+                std::fs::rename(self.arch.join(fmt06::band_dirname(0)), self.arch.join(fmt06::band_dirname(to))).expect("rename band");
+                rep.new_band = Some(to);
+                rep.desc.push_str(&format!(" [first version moved to b{to:04}]"));
+                self.sources.insert(to, self.snap.clone());
+            } else {
+                self.sources.insert(b, self.snap.clone());
+            }
         }
         rep.backup = Some(out);
         self.steps_done += 1;
